@@ -76,7 +76,7 @@ def collision_knobs(rng):
             "dirs": rng.choice([["src"], ["src", "src/sub1", "src/sub2"]]),
             "filename": (lambda r, i: r.choice(["x.f90", "X.f90", f"f{i}.f90", "y.F90", "y.f90"])),
             "modname": (lambda r, i, j: r.choice(["mod", "Mod", f"m{i}", "solver"])),
-            "p_operator": 0.6, "p_generic": 0.6, "unnamed_programs": True, "p_internal": 0.4,
+            "p_operator": 0.6, "p_generic": 0.6, "p_blank_in_generic": 0.5, "unnamed_programs": True, "p_internal": 0.4,
             "p_submodule": rng.choice([0.0, 0.25])}
 
 
@@ -107,11 +107,12 @@ def end_to_end(chk, rng, nproj):
     for k in range(nproj):
         proj = G.gen_project(rng, collision_knobs(rng))
         files = G.render_project(proj)
-        log, log5 = [], []
+        log, log5, items = [], [], {}
         orig = sf.NameSelector.get_name
 
         def spy(self, item, _orig=orig, _log=log):
             r = _orig(self, item)
+            items[id(item)] = item
             _log.append((id(item), str(item.get_dir()), item.name, r))
             log5.append((id(item), str(item.get_dir()), item.name, r, getattr(item, "obj", "")))
             return r
@@ -151,6 +152,29 @@ def end_to_end(chk, rng, nproj):
             if dup:
                 chk.violation("failing-input", {"what": "two entities share an output page", "pages": dup,
                                                 "files": files}, True)
+            # (2b) the same for the URLs FORD really hands out and the files it really wrote: distinct
+            #      page-owning entities have distinct URLs, and every displayed one has its file
+            urls = collections.defaultdict(set)
+            for (i, d, n, r) in {(i, d, n, r) for i, d, n, r in log}:
+                ent = items.get(i)
+                if d != "None" and ent is not None and not hasattr(ent, "external_url"):
+                    try:
+                        u = ent.get_url()
+                    except Exception as e:  # noqa
+                        u = f"EXC:{type(e).__name__}"
+                    urls[str(u)].add(i)
+            shared = {u: len(es) for u, es in urls.items() if len(es) > 1}
+            if shared:
+                chk.violation("failing-input", {"what": "two page-owning entities are given the same URL (one page "
+                                                "overwrites the other)", "urls": shared, "files": files}, True)
+            written = {str(q.relative_to(doc)) for q in doc.rglob("*.html")}
+            expected = {f"{d}/{r}.html" for (i, d, n, r) in log if d != "None"}
+            stray = sorted(q for q in written if q.split("/")[0] in {d for _, d, _, _ in log if d != "None"}
+                           and q not in expected)
+            if stray:
+                chk.violation("failing-input", {"what": "a page was written under a name that is not the identifier "
+                                                "the NameSelector handed out (identifier uniqueness does not cover it)",
+                                                "pages": stray[:10], "files": files}, True)
             # (3) anchors: distinct non-page entities never share "<obj>-<quote(ident)>", and every such
             #     anchor that a page emits as an id belongs to exactly one entity
             anchors = collections.defaultdict(set)
